@@ -46,10 +46,7 @@ COQ_TIMEOUT = 2400
 import sys as _sys
 EXTRA_STREAM_MODULES = [] if ("thorough" in _sys.argv or os.environ.get("VERIF_TIER") == "thorough") else ["parser"]
 EXTRA_COQ_TARGETS = ["proofs/F64Proofs.vo", "proofs/PrattProofs.vo", "proofs/TemplateProofs.vo",
-                     "theories/SimpleTypes.vo",
-                     # cited PARSER theorems + C01_eval_refines_spec (C04 o C03): built on every run, outside
-                     # Properties/C01.v so that C01's coqchk closure does not include those developments
-                     "Properties/C01X.vo"]
+                     "theories/SimpleTypes.vo"]
 
 NPROC = 4
 
